@@ -1119,7 +1119,7 @@ theorem deNBody_good (mk mk' : String → NR) (env : Env) (tl : Nat) (renv : REn
             (addCost s 1).bind fun _ s1 =>
               match p.2, p.1 with
               | .vec ee, .vec ww =>
-                (nVecCase env renv k rec vis el fl ww ee s1).map fun (q : List Val × Flags) => (seqVal (isByte renv (renv.length + 1) el) q.1, q.2)
+                (nVecCase env renv k rec vis el fl ww ee s1).map fun (q : List Val × Flags) => (seqVal (isByte renv (resolveDepth renv) el) q.1, q.2)
               | .record _, .record _ => mk "out of step: sequence visitor at a record"
               | _, _ => subErr s1)
         ((if extraCost then addCost st 1 else R.ok () st).bind fun _ s0 =>
@@ -1127,7 +1127,7 @@ theorem deNBody_good (mk mk' : String → NR) (env : Env) (tl : Nat) (renv : REn
             (addCost s 1).bind fun _ s1 =>
               match p.2, p.1 with
               | .vec ee, .vec ww =>
-                (nVecCase env renv k rec' vis el fl ww ee s1).map fun (q : List Val × Flags) => (seqVal (isByte renv (renv.length + 1) el) q.1, q.2)
+                (nVecCase env renv k rec' vis el fl ww ee s1).map fun (q : List Val × Flags) => (seqVal (isByte renv (resolveDepth renv) el) q.1, q.2)
               | .record _, .record _ => mk' "out of step: sequence visitor at a record"
               | _, _ => subErr s1) := by
     intro extraCost vis el hinv
